@@ -76,12 +76,18 @@ Theorem C05_else_binds_to_nearest_if : forall (P: Type) f s r s' t s0,
 Proof. exact else_binds_to_nearest_if. Qed.
 Print Assumptions C05_else_binds_to_nearest_if.
 ''')
-mk("C06","parse() either returns a FileAST or raises ParseError - nothing else","CrashExamples"," LexerProofs",
+mk("C06","parse() either returns a FileAST or raises ParseError - nothing else","CrashExamples"," LexerProofs LexNoCrash",
 '''(* termination of the lexing half: tokenising any text finishes within |text|+1 iterations *)
 Theorem C06_lex_terminates : forall text file,
   snd (Lexer.raw_lex (S (length text)) (Lexer.init_lexst file) text) = true.
 Proof. exact lex_terminates. Qed.
 Print Assumptions C06_lex_terminates.
+
+(* the lexer never trips its own `assert msg is not None`: for every text the item stream has no crash item
+   (every error rule of the regenerated rule table carries a message) *)
+Theorem C06_lex_no_crash : forall fuel st rest, Lexer.has_crash (fst (fst (Lexer.raw_lex fuel st rest))) = false.
+Proof. exact lex_no_crash. Qed.
+Print Assumptions C06_lex_no_crash.
 ''')
 mk("C18","structurally malformed input is always rejected","RejectExamples"," UnicodeTables PyRepr Lexer RejectProofs ConsumeProofs ConsumeTheorem",
 '''(* For ALL inputs: if parse() succeeds on the whole pipeline model then every item the lexer produced
